@@ -77,6 +77,12 @@ def _forms(tier):
         for a in alts:
             allf.append(("dow", wd, a, "<dow:%s>" % a))
         canon.append(("dow", wd, vocab.canon(alts, (vocab.EN_DOW[wd],)), "<dow>"))
+        # the weekday behind the joiners that keep its "nearest future" meaning (this / on / am / diesen <weekday>)
+        en, de = vocab.EN_DOW[wd], vocab.DE_DOW[wd]
+        for j, w in (("this", en), ("on", en), ("am", de), ("diesen", de)):
+            allf.append(("dow", wd, j + " " + w, j + " <dow>"))
+        canon.append(("dow", wd, "this " + en, "this <dow>"))
+        canon.append(("dow", wd, "diesen " + de, "diesen <dow>"))
     for n in range(1, 32):
         fs = [("{}.".format(n), "N."), (_ord(n), "Nth"), ("the " + _ord(n), "the Nth"), ("am {}.".format(n), "am N."), ("on the " + _ord(n), "on the Nth")]
         for txt, key in fs:
@@ -111,6 +117,10 @@ def _forms(tier):
             allf.append(("dowdom", (wd, n), "{} {}.".format(de, n), "<dow> N."))
             if n in (1, 13, 28, 29, 30, 31):
                 canon.append(("dowdom", (wd, n), "{} {}".format(en, _ord(n)), "<dow> Nth"))
+            if n >= 6:
+                # day of month written first ('14. Mittwoch', '14th Wed'); below 6 'Nth <weekday>' also reads as the N-th such weekday of a month
+                allf.append(("dowdom", (wd, n), "{} {}".format(_ord(n), en), "Nth <dow>"))
+                allf.append(("dowdom", (wd, n), "{}. {}".format(n, de), "N. <dow>"))
     for name, alts in vocab.pods():
         for a in alts:
             allf.append(("pod" if _single_reading(a) else "pod_ambiguous", name, a, "<pod:%s>" % a))
